@@ -616,7 +616,30 @@ func runC10(c *mc.Ctx) {
 				}
 			}
 		}
-		c.Space("blocks: 300 transactions x {chain, fan, late} x {topological, reversed, interleaved} x 3 flags", int64(len(big)))
+		// 70000 transactions (positions beyond 16 bits): the parent is the LAST transaction of the block,
+		// its spender the one before it, fillers in front; and the mirror image (parent first)
+		{
+			hn := 70000
+			txs := make([]c10BTx, hn)
+			txs[0] = c10BTx{Ins: []string{"E0"}, Outs: "UW"}
+			txs[1] = c10BTx{Ins: []string{"0.1"}, Outs: "U"}
+			for i := 2; i < hn; i++ {
+				txs[i] = c10BTx{Ins: []string{"E0"}, Outs: "U"}
+			}
+			tail := make([]int, 0, hn)
+			for i := 2; i < hn; i++ {
+				tail = append(tail, i)
+			}
+			tail = append(tail, 1, 0)
+			head := make([]int, hn)
+			for i := range head {
+				head[i] = i
+			}
+			for fl := 1; fl <= 2; fl++ {
+				big = append(big, c10Block{Txs: txs, Order: tail, Flags: fl, Geom: "mid"}, c10Block{Txs: txs, Order: head, Flags: fl, Geom: "mid"})
+			}
+		}
+		c.Space("blocks: 300 transactions x {chain, fan, late} x {topological, reversed, interleaved} x 3 flags, and 70000-transaction blocks with the parent last / first", int64(len(big)))
 		c.ParFor(int64(len(big)), func(w *mc.W, i int64) {
 			w.State()
 			c10EvalBlock(w, big[i])
